@@ -1,6 +1,7 @@
 #!/usr/bin/env python3
 """Engine self-test: abstract cell analysis vs brute force over ALL values of 8/16-bit types.
 Not a registered check (it evaluates DAGs concretely); it validates the domains of vlib/cells.py."""
+import re
 import os, sys, random
 from fractions import Fraction
 sys.path.insert(0, os.path.dirname(os.path.dirname(os.path.abspath(__file__))))
@@ -85,6 +86,13 @@ def nested(ctx, rnd):
             # (narrowing a 16-bit parameter times a to 8 bits has one cell per wrap: keep the target as wide as the parameter)
             N = ("int8_t" if rnd.random() < 0.5 else "uint8_t") if "8" in T else ("int16_t" if rnd.random() < 0.5 else "uint16_t")
             funcs.append((k, T, "w", 'extern "C" bool f_%d(%s x) { return static_cast<%s>(x * %d) %s %d; }' % (k, T, N, a, op, c)))
+    # a remainder narrowed before it is tested (kind "r"): where the abstract value is Bad
+    # ('remainder-narrowed') its witness must really be a value for which the function says false
+    # although the remainder is not zero; where it is a boolean it must agree with every value
+    for T, N, Ds in (("int16_t", "int8_t", (300, 1000, 257, 100, 256, 512)), ("uint16_t", "uint8_t", (300, 1000, 4097, 255, 256)), ("int16_t", "uint8_t", (700, 129))):
+        for D in Ds:
+            k = len(funcs)
+            funcs.append((k, T, "r", 'extern "C" bool f_%d(%s x) { return static_cast<%s>(x %% %d) != 0; }' % (k, T, N, D)))
     src = "#include <cstdint>\n" + "\n".join(f[3] for f in funcs) + "\n"
     ll, err = ir.build_ir(ctx, src, "st_nested")
     assert ll, err
@@ -93,17 +101,29 @@ def nested(ctx, rnd):
     for k, T, kind, _ in funcs:
         d = dag.build(mod.funcs["f_%d" % k], mod)
         lo, hi = model.int_range(T)
-        part = cells.analyse({"v": d.ret}, lo, hi, wrap_roots=("v",) if kind == "w" else None)
+        part = cells.analyse({"v": d.ret}, lo, hi, wrap_roots=("v",) if kind in ("w", "r") else None)
         seen = 0
         for cell, res in part:
             nc += 1
+            if kind == "r" and isinstance(res["v"], cells.Bad):
+                w = res["v"].example
+                D = int(re.search(r"x % (\d+)\)", [f for f in funcs if f[0] == k][0][3]).group(1))
+                assert res["v"].kind == "remainder-narrowed" and cell.lo <= w <= cell.hi, (k, res["v"], cell)
+                assert concrete.ev(d.ret, [w]) == 0 and w % D != 0, (k, w, D)
+                # every value of this cell: count them as seen, the verdict is about the witness
+                x = cell.first()
+                while x is not None:
+                    seen += 1
+                    nx = cells.Cell(x + 1, cell.hi, cell.cls)
+                    x = None if nx.empty() else nx.first()
+                continue
             x = cell.first()
             while x is not None:
                 seen += 1
                 nv += 1
                 cv = concrete.ev(d.ret, [x])
                 av = res["v"]
-                if kind == "w":
+                if kind in ("w", "r"):
                     assert cells.as_bool(av) is not None and int(cells.as_bool(av)) == cv, (k, x, cv, av, cell)
                 else:
                     assert isinstance(av, cells.Form), (k, x, av, cell)
